@@ -16,7 +16,38 @@ def c15(tier):
     ]
 
 
+def c12(tier):
+    return [
+        R("stats", args={"faults": 1}),
+        R("stats", profile="checked", args={"faults": 0}),
+    ]
+
+
+def c13(tier):
+    return [R("stats")]
+
+
+def c14(tier):
+    return [R("stats")]
+
+
+def c08(tier):
+    return [
+        R("nonfinite", hang_secs=4, max_hangs=6, hang_is_verdict=True),
+        R("nonfinite", profile="checked", hang_secs=4, max_hangs=6, hang_is_verdict=True),
+    ]
+
+
+def c09(tier):
+    return [R("faults")]
+
+
 PLAN = {
+    "C08": c08,
+    "C09": c09,
+    "C12": c12,
+    "C13": c13,
+    "C14": c14,
     "C15": c15,
 }
 
